@@ -29,6 +29,12 @@ def record_errors(cfg, u, x, logl, blobs, want_blobs):
             errs.append(("x", i, f"x={x[i].tolist()} but prior_transform(u)={np.asarray(xi).tolist()}"))
             continue
         li = f(x[i]) * (cfg.get("ll_kwargs") or {}).get("scale", 1.0) + ((cfg.get("ll_args") or [0.0])[0]) + cfg["shift"]
+        if cfg.get("ll_noisy") and want_blobs:
+            # a likelihood that is not a pure function of x: the stored blob is the serial number of the call, the stored logL must be THAT call's value
+            ser = float(np.asarray(blobs[i]).reshape(-1)[0])
+            if not (li + targets.call_noise(ser) == logl[i]):
+                errs.append(("logl/blob", i, f"logl={logl[i]!r} and blob (call number) {ser!r} do not come from one call of the likelihood at x (that call returned {li + targets.call_noise(ser)!r})"))
+            continue
         if not (li == logl[i]):
             errs.append(("logl", i, f"logl={logl[i]!r} but likelihood(x)={li!r}"))
         if want_blobs:
@@ -77,10 +83,10 @@ def coherent_monitor(prefix="pipe", resumed=False):
             pool = {}
             for ub, xb, lb in zip(h["u"], h["x"], h["logl"]):
                 for i in range(len(ub)):
-                    pool[np.asarray(ub[i]).tobytes()] = (np.asarray(xb[i]).tobytes(), float(lb[i]))
+                    pool.setdefault(np.asarray(ub[i]).tobytes(), set()).add((np.asarray(xb[i]).tobytes(), float(lb[i])))  # (a likelihood that is not a pure function of x can store one point with several values)
             for i in range(len(cur["u"])):
                 hit = pool.get(np.asarray(cur["u"][i]).tobytes())
-                if hit is None or hit[0] != np.asarray(cur["x"][i]).tobytes() or hit[1] != float(cur["logl"][i]):
+                if hit is None or (np.asarray(cur["x"][i]).tobytes(), float(cur["logl"][i])) not in hit:
                     p.violate(f"{prefix}:resample:not-from-pool", f"iteration {ev.iter}: resampled particle {i} is not a particle of the current history pool", iter=ev.iter)
                     break
         if ev.step == "commit":
